@@ -16,7 +16,7 @@ from .. import gen, session
 PROP = 'C09'
 RULE = ('steered sessions: leverage {1,2,3,5,10,25,50,100,125} x long/short x single/averaged entry x approach pattern '
         '{near miss, one ulp short, exact touch, one ulp beyond, overshoot, jump over by a gap} x with/without protective stop '
-        'x normal/fast simulator x isolated (and cross / spot controls). distinct = distinct (leverage, side, pattern, stop, '
+        'x deciding candle closes {half way, back in profit (wick and recover), at the extreme} x normal/fast simulator x isolated (and cross / spot controls). distinct = distinct (leverage, side, pattern, stop, '
         'simulator, mode, averaged); non-trivial = the deciding candle was reached with an open position or a liquidation happened.')
 ASSUMPTIONS = ['reference prices: long liq = entry*(1 - 1/L + 0.004), bankruptcy = entry*(1 - 1/L); short mirrored, evaluated in '
                'the same floating-point order as documented',
@@ -99,6 +99,11 @@ def build(job):
         cur = c2
     else:
         close = cur + (extreme - cur) * 0.5
+        if job.get('close_mode') == 'recover_profit':
+            # wick to the extreme, but the minute closes on the winning side of the entry price
+            close = entry_eff * (1.002 if side == 'long' else 0.998)
+        elif job.get('close_mode') == 'at_extreme':
+            close = extreme
         if side == 'long':
             rows.append(np.array([0, cur, close, max(cur, close), extreme, 7.0]))
         else:
@@ -147,7 +152,8 @@ def run_job(job):
     cnt['sessions'] = 1
     if mode != 'isolated':
         cnt['control_sessions'] = 1
-    sig = repr((job['lev'], job['side'], job['pattern'], job['stop'], job['fast'], mode, job['averaged'], job['tf']))
+    sig = repr((job['lev'], job['side'], job['pattern'], job['stop'], job['fast'], mode, job['averaged'], job['tf'],
+                job.get('close_mode')))
     res = {'viol': viol, 'cnt': cnt,
            'sigs': [sig] if cnt.get('liquidation_checks_with_open_position') or cnt.get('liquidations') else []}
     if job['i'] < 3:
@@ -289,6 +295,7 @@ def make_jobs(tier, seed):
                 mode = 'spot'
             jobs.append({'kind': 's', 'seed': rng.randrange(1 << 30), 'i': i, 'lev': lev, 'side': side, 'pattern': pattern,
                          'stop': stop, 'fast': fast, 'mode': mode, 'averaged': rng.random() < 0.3,
-                         'tf': rng.choice(['1m', '1m', '5m']), 'fee': rng.choice([0, 0.0005, 0.001])})
+                         'tf': rng.choice(['1m', '1m', '5m']), 'fee': rng.choice([0, 0.0005, 0.001]),
+                         'close_mode': rng.choice(['half', 'half', 'recover_profit', 'at_extreme'])})
             i += 1
     return jobs
